@@ -187,17 +187,23 @@ theorem not_G_kdf {H S C E} {x y : Nat} (hx : x ∈ H) (hy : y ∈ H) (s i : Ter
     ¬ G H S C E (.kdf (.shared x y) s i) := by
   intro h; simp only [G] at h; exact h.1 ⟨hx, hy⟩
 
-/-- responder, resumption: the `Resume1MIC` it accepted is an honest one -/
-theorem respResume_G {H S C E} (fabrics : List Fabric) (cache : List ResRec) (m : Msg) (newRid sid : Term)
-    (cx : RespResumeCtx)
+/-- responder, resumption: whenever `try_handle_sigma1_resume` does not fall through (it resumes,
+or aborts after `Sigma2_Resume` went out), the `Resume1MIC` it accepted is an honest one -/
+theorem respResumeStep_G {H S C E} (fabrics : List Fabric) (cache : List ResRec) (m : Msg) (newRid sid : Term)
     (hc : ∀ r ∈ cache, ∃ x y, r.secret = .shared x y ∧ x ∈ H ∧ y ∈ H)
-    (h : respResume fabrics cache m newRid sid = some cx) (hg : G H S C E m.toTerm) :
-    ∃ rec ∈ cache, ∃ iRnd iSid dest iEph,
+    (h : respResumeStep fabrics cache m newRid sid ≠ .fallThrough) (hg : G H S C E m.toTerm) :
+    ∃ rec iRnd iSid dest iEph, cache.find? (fun r => r.rid == rec.rid) = some rec ∧
       m = .sigma1 iRnd iSid dest iEph
         (some (rec.rid, Term.mic (resumeKey rec.secret iRnd rec.rid infoS1RK) nonceR1)) ∧
-      Term.mic (resumeKey rec.secret iRnd rec.rid infoS1RK) nonceR1 ∈ E := by
-  obtain ⟨rec, hrec, iRnd, iSid, dest, iEph, hm, _⟩ := respResume_some fabrics cache m newRid sid cx h
-  refine ⟨rec, hrec, iRnd, iSid, dest, iEph, hm, ?_⟩
+      Term.mic (resumeKey rec.secret iRnd rec.rid infoS1RK) nonceR1 ∈ E ∧
+      ((∃ fb cx, fabrics.find? (fun f => f.idx == rec.fabIdx) = some fb ∧
+          respResumeStep fabrics cache m newRid sid = .sent cx) ∨
+       (fabrics.find? (fun f => f.idx == rec.fabIdx) = none ∧
+          respResumeStep fabrics cache m newRid sid =
+            .aborted (.sigma2Resume newRid (Term.mic (resumeKey rec.secret iRnd newRid infoS2RK) nonceR2) sid))) := by
+  obtain ⟨rec, iRnd, iSid, dest, iEph, hfind, hm, hcase⟩ := respResumeStep_accepts fabrics cache m newRid sid h
+  have hrec : rec ∈ cache := List.mem_of_find?_eq_some hfind
+  refine ⟨rec, iRnd, iSid, dest, iEph, hfind, hm, ?_, hcase⟩
   obtain ⟨x, y, hsec, hx, hy⟩ := hc rec hrec
   rw [hm] at hg
   simp only [Msg.toTerm, resumeTerm, G] at hg
@@ -207,6 +213,18 @@ theorem respResume_G {H S C E} (fabrics : List Fabric) (cache : List ResRec) (m 
     have := h1.1
     rw [resumeKey, hsec] at this
     exact not_G_kdf hx hy _ _ this
+
+theorem respResume_G {H S C E} (fabrics : List Fabric) (cache : List ResRec) (m : Msg) (newRid sid : Term)
+    (cx : RespResumeCtx)
+    (hc : ∀ r ∈ cache, ∃ x y, r.secret = .shared x y ∧ x ∈ H ∧ y ∈ H)
+    (h : respResume fabrics cache m newRid sid = some cx) (hg : G H S C E m.toTerm) :
+    ∃ rec ∈ cache, ∃ iRnd iSid dest iEph,
+      m = .sigma1 iRnd iSid dest iEph
+        (some (rec.rid, Term.mic (resumeKey rec.secret iRnd rec.rid infoS1RK) nonceR1)) ∧
+      Term.mic (resumeKey rec.secret iRnd rec.rid infoS1RK) nonceR1 ∈ E := by
+  obtain ⟨rec, iRnd, iSid, dest, iEph, hfind, hm, hmem, _⟩ := respResumeStep_G fabrics cache m newRid sid hc
+    (by rw [(respResumeStep_sent_iff _ _ _ _ _ cx).2 h]; intro h'; cases h') hg
+  exact ⟨rec, List.mem_of_find?_eq_some hfind, iRnd, iSid, dest, iEph, hm, hmem⟩
 
 /-- responder, Sigma3 -/
 theorem respSigma3_G {H S C E} (t : Time) (ctx : RespCtx) (m : Msg) (p : Session × ResRec)
@@ -660,16 +678,14 @@ theorem clean_resp {A : Attacker} {cfg : HsCfg} (hs : FullSetting A cfg) {i : IS
   rcases hc.r_ok with hr | ⟨ctx, hcx, hr⟩ | hr | hr
   · -- idle
     obtain ⟨hwi, hii⟩ := hc.idle hr
-    have hres : respResume cfg.fabricsR cfg.cacheR m cfg.ridR cfg.sidR = none := by
-      cases hrr : respResume cfg.fabricsR cfg.cacheR m cfg.ridR cfg.sidR with
-      | none => rfl
-      | some cx =>
-        exfalso
-        obtain ⟨rec, _, _, _, _, _, _, hmem⟩ := respResume_G _ _ _ _ _ cx hs.hcacheR hrr hg
-        obtain ⟨w, hww, hwe⟩ := List.mem_flatMap.1 hmem
-        rcases hwi w hww with h | h
-        · rw [h, s1_shape hs] at hwe; simp [encOf] at hwe
-        · rw [h] at hwe; simp [encOf] at hwe
+    have hres : respResumeStep cfg.fabricsR cfg.cacheR m cfg.ridR cfg.sidR = .fallThrough := by
+      apply Classical.byContradiction
+      intro hrr
+      obtain ⟨rec, _, _, _, _, _, _, hmem, _⟩ := respResumeStep_G _ _ _ _ _ hs.hcacheR hrr hg
+      obtain ⟨w, hww, hwe⟩ := List.mem_flatMap.1 hmem
+      rcases hwi w hww with h | h
+      · rw [h, s1_shape hs] at hwe; simp [encOf] at hwe
+      · rw [h] at hwe; simp [encOf] at hwe
     cases hr1 : respSigma1 cfg.fabricsR m cfg.ephR cfg.rndR cfg.ridR cfg.sidR with
     | sent ctx =>
       have hstep : stepResp cfg r m = (.sent2 ctx, [ctx.s2]) := by rw [hr]; simp [stepResp, hres, hr1]
@@ -1030,7 +1046,7 @@ theorem honest_run_full {A : Attacker} {cfg : HsCfg} (hs : FullSetting A cfg) :
     refR cfg = hResR cfg ∧ refI cfg = if (hResR cfg).isSome then hResI cfg else none := by
   have hs1 := s1_shape hs
   have hnr : ∀ m, initSigma2Resume cfg.init0 m = none := fun m => initSigma2Resume_noRec _ m hs.hfull
-  have hrr : respResume cfg.fabricsR cfg.cacheR cfg.init0.s1 cfg.ridR cfg.sidR = none := by
+  have hrr : respResumeStep cfg.fabricsR cfg.cacheR cfg.init0.s1 cfg.ridR cfg.sidR = .fallThrough := by
     rw [hs1]; rfl
   have hne : ∀ b, Msg.status b ≠ cfg.init0.s1 := by intro b; rw [hs1]; simp
   unfold refR refI
@@ -1532,7 +1548,8 @@ theorem respResume_modSid (fabrics : List Fabric) (cache : List ResRec) (r s d e
     ∃ cx', respResume fabrics cache (.sigma1 r s' d' e' (some (rid, mic))) nr sid = some cx' ∧
       cx'.s2r = cx.s2r ∧ cx'.record = cx.record ∧ cx'.newRid = cx.newRid ∧
       modSid cx'.session = modSid cx.session := by
-  unfold respResume at h ⊢
+  rw [respResume_eq] at h ⊢
+  unfold respResumeSucc at h ⊢
   simp only at h ⊢
   split at h
   · cases h
@@ -1600,9 +1617,41 @@ theorem cleanRes_resp {A : Attacker} {cfg : HsCfg} (hs : ResumeSetting A cfg) {i
       (m ∉ wire ∧ DevS1 cfg i (stepResp cfg r m).1 (wire ++ (stepResp cfg r m).2)) := by
   rcases hc.r_ok with hr | ⟨cx, hcx, hr⟩ | hr | ⟨cx, hcx, hr⟩
   · obtain ⟨hwi, hii⟩ := hc.idle hr
+    -- the responder cannot abort after `Sigma2_Resume`: the only `Resume1MIC` it accepts here is the
+    -- initiator's, which selects the record of the untouched run, whose fabric is in the table
+    have hnab : ∀ s2r, respResumeStep cfg.fabricsR cfg.cacheR m cfg.ridR cfg.sidR ≠ .aborted s2r := by
+      intro s2r hab
+      have hne : respResumeStep cfg.fabricsR cfg.cacheR m cfg.ridR cfg.sidR ≠ .fallThrough := by
+        rw [hab]; intro h; cases h
+      obtain ⟨rec, iRnd, iSid, dest, iEph, hfind, hm, hmem, hcase⟩ :=
+        respResumeStep_G _ _ _ _ _ hs.hcacheR hne hg
+      have hfn : cfg.fabricsR.find? (fun f => f.idx == rec.fabIdx) = none := by
+        rcases hcase with ⟨fb, cx, _, hs'⟩ | ⟨h, _⟩
+        · rw [hab] at hs'; cases hs'
+        · exact h
+      obtain ⟨w, hww, hwe⟩ := List.mem_flatMap.1 hmem
+      have hmic : Term.mic (resumeKey rec.secret iRnd rec.rid infoS1RK) nonceR1 = mic1 hs := by
+        rcases hwi w hww with h | h
+        · rw [h, s1r_shape hs] at hwe; simpa [encOf] using hwe
+        · rw [h] at hwe; simp [encOf] at hwe
+      simp only [mic1, Term.mic.injEq, resumeKey, Term.kdf.injEq, Term.pair.injEq] at hmic
+      obtain ⟨⟨_, ⟨_, hrid⟩, _⟩, _⟩ := hmic
+      -- the untouched Sigma1 selects a record with the same id, whose fabric exists
+      have h0 : respResumeStep cfg.fabricsR cfg.cacheR cfg.init0.s1 cfg.ridR cfg.sidR ≠ .fallThrough := by
+        rw [(respResumeStep_sent_iff _ _ _ _ _ _).2 hs.hcx0]; intro h; cases h
+      obtain ⟨rec0, iRnd0, iSid0, dest0, iEph0, hfind0, hm0, hcase0⟩ := respResumeStep_accepts _ _ _ _ _ h0
+      rw [s1r_shape hs] at hm0
+      simp only [Msg.sigma1.injEq, Option.some.injEq, Prod.mk.injEq] at hm0
+      have hrid0 : hs.recI.rid = rec0.rid := hm0.2.2.2.2.1
+      rw [hrid, hrid0, hfind0] at hfind
+      cases hfind
+      rcases hcase0 with ⟨fb, _, hfb, _⟩ | ⟨_, hab0⟩
+      · rw [hfn] at hfb; cases hfb
+      · rw [(respResumeStep_sent_iff _ _ _ _ _ _).2 hs.hcx0] at hab0; cases hab0
     cases hrr : respResume cfg.fabricsR cfg.cacheR m cfg.ridR cfg.sidR with
     | some cx =>
-      have hstep : stepResp cfg r m = (.sent2r cx, [cx.s2r]) := by rw [hr]; simp [stepResp, hrr]
+      have hstep : stepResp cfg r m = (.sent2r cx, [cx.s2r]) := by
+        rw [hr]; simp [stepResp, (respResumeStep_sent_iff _ _ _ _ _ _).2 hrr]
       rw [hstep]
       left
       -- the MIC it accepted is the one of the initiator's Sigma1
@@ -1631,9 +1680,14 @@ theorem cleanRes_resp {A : Attacker} {cfg : HsCfg} (hs : ResumeSetting A cfg) {i
           rw [h, e1]; exact Or.inr (Or.inr (Or.inr rfl))
       · intro h; cases h
     | none =>
+      have hft : respResumeStep cfg.fabricsR cfg.cacheR m cfg.ridR cfg.sidR = .fallThrough := by
+        cases hst : respResumeStep cfg.fabricsR cfg.cacheR m cfg.ridR cfg.sidR with
+        | fallThrough => rfl
+        | sent cx => rw [(respResumeStep_sent_iff _ _ _ _ _ _).1 hst] at hrr; cases hrr
+        | aborted s2r => exact absurd hst (hnab s2r)
       cases hr1 : respSigma1 cfg.fabricsR m cfg.ephR cfg.rndR cfg.ridR cfg.sidR with
       | sent ctx =>
-        have hstep : stepResp cfg r m = (.sent2 ctx, [ctx.s2]) := by rw [hr]; simp [stepResp, hrr, hr1]
+        have hstep : stepResp cfg r m = (.sent2 ctx, [ctx.s2]) := by rw [hr]; simp [stepResp, hft, hr1]
         rw [hstep]
         right
         have hm : m ≠ cfg.init0.s1 := by
@@ -1652,7 +1706,7 @@ theorem cleanRes_resp {A : Attacker} {cfg : HsCfg} (hs : ResumeSetting A cfg) {i
             exact Or.inr (Or.inl h)
       | refused =>
         have hstep : stepResp cfg r m = (.done none, [.status false]) := by
-          rw [hr]; simp [stepResp, hrr, hr1]
+          rw [hr]; simp [stepResp, hft, hr1]
         rw [hstep]
         left
         refine ⟨?_, hc.i_ok, Or.inr (Or.inr (Or.inl rfl)), ?_⟩
@@ -1928,11 +1982,12 @@ theorem honest_run_resume {A : Attacker} {cfg : HsCfg} (hs : ResumeSetting A cfg
     rw [hs.hcached]
     simp only [hsec, (init0_fields cfg).2.2.2]
     simp
+  have hstep := (respResumeStep_sent_iff _ _ _ _ _ _).2 hs.hcx0
   unfold refI refR hResIr hResRr
   cases hp : initSigma2Resume cfg.init0 hs.cx0.s2r with
   | none => rw [hp] at hI; cases hI
   | some p =>
-    simp [honestOps, Net.run, Net.step, Net.start, stepResp, stepInit, hs.hcx0, hp,
+    simp [honestOps, Net.run, Net.step, Net.start, stepResp, stepInit, hstep, hp,
       IState.result, RState.result, hne, hne2, respResumeFinish]
 
 /-- each end: no session, or the session of the untouched run — `Net.run` on `honestOps` — up to
